@@ -50,6 +50,8 @@ func (it *Iterator) M__next__() (res Object, err error) {
 	}
 	if err != nil {
 		if IsException(IndexError, err) {
+			// stay exhausted even if the sequence grows later
+			it.Seq, it.Pos = Tuple(nil), 0
 			return nil, StopIteration
 		}
 		return nil, err
